@@ -45,3 +45,19 @@ Proof.
   assert (E : source_recheck = true) by (unfold source_recheck; rewrite src_scan_rechecks; reflexivity).
   rewrite E. exact touch_vs_scan_every_interleaving.
 Qed.
+
+(* ---- model/ScanRound.v: the round goes on after a stale entry (F24) ---- *)
+From Coq Require Import ZArith.
+From NSQV Require Import model.ScanRound proofs.ScanRoundProofs.
+Definition scan_skips_stale (sh : list string) : bool :=
+  match drop_until "call c.popInFlightMessage" sh with
+  | _ :: "if err != nil {" :: "continue" :: "}" :: _ => true
+  | _ => false
+  end.
+Lemma src_scan_skips_stale : scan_skips_stale shape_Channel_processInFlightQueue = true.
+Proof. vm_compute. reflexivity. Qed.
+
+Theorem source_due_messages_are_requeued t in_set current pq m :
+  all_due t pq -> In m (map e_id pq) -> in_set m = true -> (current m <= t)%Z ->
+  In m (round (scan_skips_stale shape_Channel_processInFlightQueue) t in_set current pq).
+Proof. rewrite src_scan_skips_stale. apply due_messages_are_requeued. Qed.
